@@ -92,14 +92,24 @@ def oracle_case(pcode: str, n_ticks: int, tags_plan: list, injects: dict | None 
             case["inject"] = injects
         fails.append(Failure(key, case, detail))
     try:
+        from openpectus.lang.exec.events import EventListener
+        started_names: list[str] = []
+
+        class _L(EventListener):
+            def on_block_start(self, block_info):
+                started_names.append(block_info.name)
+        run.engine.emitter.add_listener(_L())
         prev = None
         prev_handlers: dict = {}
         keep = []           # keeps every Interrupt object alive so that id() stays unique
+        entered: dict = {}  # block id -> it held the lock / announced its start in the current invocation
+        ended_at: dict = {}  # block id -> (tick it ended, {call node id: [macro node ids]} in progress inside it)
         for t in range(n_ticks):
             for name, v in tags_plan[t] if t < len(tags_plan) else []:
                 run.set_tag(name, v)
             if injects and str(t) in injects:
                 run.inject(injects[str(t)])
+            del started_names[:]
             snap = run.tick()
             handlers = {}
             for it in run.engine.interpreter.interrupts:
@@ -202,6 +212,54 @@ def oracle_case(pcode: str, n_ticks: int, tags_plan: list, injects: dict | None 
                             fail("interrupt-survives-end-block" + site, t,
                                  f"{w['name']} line {w['line']} is still registered after block {b['arg']!r} "
                                  f"around it ended")
+            # (7) a Block whose visit is over (completed: the line after it may start) was active in that invocation
+            #     (flags are reset by an Alarm re-arm / a repeated Call macro: judged per invocation)
+            for b in blocks:
+                bid = b["id"]
+                if common and ((pn[bid]["completed"] and not b["completed"]) or (pn[bid]["started"] and not b["started"])):
+                    entered[bid] = False
+                if b["lock"] or b["arg"] in started_names:
+                    entered[bid] = True
+                if common and b["completed"] and not pn[bid]["completed"] and not entered.get(bid, False):
+                    fail("block-completed-without-being-active", t,
+                         f"block {b['arg']!r} (line {b['line']}) completed, so the lines after it may run, but it "
+                         f"never held the lock nor announced its start in this invocation")
+            # (8) after a block ended no instruction inside it starts any more - neither a line of the block nor a
+            #     line of a macro body that a Call macro of the block was executing
+            if common:
+                for bid in list(ended_at):
+                    if not nodes[bid]["ended"]:
+                        del ended_at[bid]      # reset by an Alarm re-arm / a new macro call
+                for bid, (te, calls) in ended_at.items():
+                    b = nodes[bid]
+                    inside = {nid for nid in nodes if bid in anc[nid]}
+                    for cid, mids in calls.items():
+                        c = nodes[cid]
+                        if c["completed"] or not c["started"]:
+                            continue
+                        others = [o for o in snap["nodes"] if o["cls"] == "CallMacroNode" and o["id"] != cid
+                                  and o["arg"] == c["arg"] and o["started"] and not o["completed"]]
+                        if others:
+                            continue
+                        for mid in mids:
+                            inside |= {nid for nid in nodes if mid in anc[nid]}
+                    for nid in inside:
+                        d = nodes[nid]
+                        if d["cls"] in ("WatchNode", "AlarmNode"):
+                            continue       # their flag is set by their own handler's wrapper, not by running a line
+                        if d["started"] and not pn[nid]["started"]:
+                            fail("line-starts-inside-ended-block", t,
+                                 f"{d['name']} line {d['line']} started at tick {t}, block {b['arg']!r} around it "
+                                 f"ended at tick {te}")
+                for b in blocks:
+                    if b["ended"] and not pn[b["id"]]["ended"]:
+                        calls = {}
+                        for c in snap["nodes"]:
+                            if c["cls"] == "CallMacroNode" and b["id"] in anc[c["id"]] and c["started"] \
+                                    and not c["completed"]:
+                                calls[c["id"]] = [m["id"] for m in snap["nodes"]
+                                                  if m["cls"] == "MacroNode" and m["arg"] == c["arg"]]
+                        ended_at[b["id"]] = (t, calls)
             if fails:
                 break
             prev = snap
@@ -241,6 +299,14 @@ TEMPLATES = [
     "Macro: Leave\n    Mark: m\n    End blocks\nBlock: A\n    Block: B\n        Mark: b1\n        Call macro: Leave\n        Mark: b2\n    Mark: a\nMark: z",
     "Macro: Leave\n    End block\nBlock: A\n    Block: B\n        Mark: b1\n        Call macro: Leave\n        Mark: b2\n    Mark: a\n    Call macro: Leave\n    Mark: a2\nMark: z",
     "Watch: T0 > 0\n    End block\n    Wait: 0.5s\n    End block\nBlock: A\n    Block: B\n        Wait: 2s\n        Mark: b\n    Wait: 2s\n    Mark: a\nMark: z",
+    # a Block in a body that runs again: a macro called twice (and again from a block), an Alarm that fires again
+    "Macro: M\n    Block: X\n        Mark: x\n        End block\n    Mark: m\nCall macro: M\nCall macro: M\nMark: done",
+    "Macro: M\n    Block: X\n        Mark: x\n        End block\n    Mark: m\nWatch: T0 > 0\n    Call macro: M\n    Call macro: M\nWait: 4s\nMark: done",
+    "Alarm: T0 > 0\n    Block: A\n        Mark: a\n        End block\n    Mark: b\nWait: 4s\nMark: z",
+    # a Block started from a Watch that calls a macro; End block (from a Watch inside the block) hits while the macro
+    # body is running
+    "Macro: M\n    Mark: m1\n    Mark: m2\n    Mark: m3\n    Mark: m4\n    Mark: m5\n    Mark: m6\n    Mark: m7\n    Mark: m8\nWatch: T0 > 0\n    Block: B\n        Watch: T0 > 0\n            End block\n        Mark: b1\n        Call macro: M\n        Mark: b2\n    Mark: after\nMark: main",
+    "Macro: M\n    Mark: m1\n    Wait: 0.5s\n    Mark: m2\n    Mark: m3\n    Mark: m4\nAlarm: T0 > 0\n    Block: B\n        Watch: T0 > 0\n            Wait: 0.25s\n            End block\n        Call macro: M\n        Mark: b2\n    Mark: after\n    Wait: 5s\nMark: main",
     # a Watch whose body opens a block, next to a Watch that ends the enclosing block in the same tick
     "Block: B\n    Watch: T0 > 0\n        End block\n    Watch: T0 > 0\n        Block: N\n            Mark: n\n            End block\n    Wait: 3s\n    End block\nMark: z\nBlock: C\n    Mark: c\n    End block\nMark: y",
 ]
